@@ -14,7 +14,8 @@
      get_connection relies on); with [tick cf = false] it returns the clock unchanged, so equal
      stamps occur (the weakness conceded by that comment).
    - Python objects are indices into total maps (struct of arrays): connections, records, fairies.
-   - ghost fields (never read by the code paths): c_det, c_mark, c_soft, taint_close, taint_gc.
+   - ghost fields (never read by the code paths): c_det, c_mark, c_soft, taint_close (a BaseException escaped
+     a DBAPI close()), taint_reset (a BaseException escaped the reset of an explicitly returned fairy).
    Definitions only; proofs live in PoolSeq*Proofs.v. *)
 From Coq Require Import List ZArith Bool Arith.
 Import ListNotations.
@@ -58,7 +59,7 @@ Record ext : Type := mk_ext {
   faults_ : list Z;
   trace_ : list (Z * Z);
   taint_close_ : bool;
-  taint_gc_ : bool
+  taint_reset_ : bool
 }.
 Record cns : Type := mk_cns {
   nconns_ : nat;
@@ -113,12 +114,12 @@ Definition clock (s : st) : Z := clock_ (ex s).
 Definition faults (s : st) : list Z := faults_ (ex s).
 Definition trace (s : st) : list (Z * Z) := trace_ (ex s).
 Definition taint_close (s : st) : bool := taint_close_ (ex s).
-Definition taint_gc (s : st) : bool := taint_gc_ (ex s).
-Definition set_clock (s : st) (v : Z) : st := set_ex s {| clock_ := v; faults_ := faults_ (ex s); trace_ := trace_ (ex s); taint_close_ := taint_close_ (ex s); taint_gc_ := taint_gc_ (ex s) |}.
-Definition set_faults (s : st) (v : list Z) : st := set_ex s {| clock_ := clock_ (ex s); faults_ := v; trace_ := trace_ (ex s); taint_close_ := taint_close_ (ex s); taint_gc_ := taint_gc_ (ex s) |}.
-Definition set_trace (s : st) (v : list (Z * Z)) : st := set_ex s {| clock_ := clock_ (ex s); faults_ := faults_ (ex s); trace_ := v; taint_close_ := taint_close_ (ex s); taint_gc_ := taint_gc_ (ex s) |}.
-Definition set_taint_close (s : st) (v : bool) : st := set_ex s {| clock_ := clock_ (ex s); faults_ := faults_ (ex s); trace_ := trace_ (ex s); taint_close_ := v; taint_gc_ := taint_gc_ (ex s) |}.
-Definition set_taint_gc (s : st) (v : bool) : st := set_ex s {| clock_ := clock_ (ex s); faults_ := faults_ (ex s); trace_ := trace_ (ex s); taint_close_ := taint_close_ (ex s); taint_gc_ := v |}.
+Definition taint_reset (s : st) : bool := taint_reset_ (ex s).
+Definition set_clock (s : st) (v : Z) : st := set_ex s {| clock_ := v; faults_ := faults_ (ex s); trace_ := trace_ (ex s); taint_close_ := taint_close_ (ex s); taint_reset_ := taint_reset_ (ex s) |}.
+Definition set_faults (s : st) (v : list Z) : st := set_ex s {| clock_ := clock_ (ex s); faults_ := v; trace_ := trace_ (ex s); taint_close_ := taint_close_ (ex s); taint_reset_ := taint_reset_ (ex s) |}.
+Definition set_trace (s : st) (v : list (Z * Z)) : st := set_ex s {| clock_ := clock_ (ex s); faults_ := faults_ (ex s); trace_ := v; taint_close_ := taint_close_ (ex s); taint_reset_ := taint_reset_ (ex s) |}.
+Definition set_taint_close (s : st) (v : bool) : st := set_ex s {| clock_ := clock_ (ex s); faults_ := faults_ (ex s); trace_ := trace_ (ex s); taint_close_ := v; taint_reset_ := taint_reset_ (ex s) |}.
+Definition set_taint_reset (s : st) (v : bool) : st := set_ex s {| clock_ := clock_ (ex s); faults_ := faults_ (ex s); trace_ := trace_ (ex s); taint_close_ := taint_close_ (ex s); taint_reset_ := v |}.
 Definition nconns (s : st) : nat := nconns_ (cn s).
 Definition c_nclose (s : st) : nat -> Z := c_nclose_ (cn s).
 Definition c_start (s : st) : nat -> Z := c_start_ (cn s).
@@ -173,7 +174,7 @@ Definition set_as_conn (s : st) (v : option nat) : st := set_pl s {| inv_time_ :
 Definition set_as_out (s : st) (v : bool) : st := set_pl s {| inv_time_ := inv_time_ (pl s); q_ := q_ (pl s); overflow_ := overflow_ (pl s); static_ := static_ (pl s); sg_rec_ := sg_rec_ (pl s); sg_fairy_ := sg_fairy_ (pl s); as_conn_ := as_conn_ (pl s); as_out_ := v |}.
 
 Definition init (cf : cfg) (fl : list Z) : st :=
-  {| ex := {| clock_ := 0; faults_ := fl; trace_ := []; taint_close_ := false; taint_gc_ := false |};
+  {| ex := {| clock_ := 0; faults_ := fl; trace_ := []; taint_close_ := false; taint_reset_ := false |};
      cn := {| nconns_ := O; c_nclose_ := fun _ => 0; c_start_ := fun _ => 0; c_det_ := fun _ => false;
               c_mark_ := fun _ => false; c_soft_ := fun _ => false |};
      rc := {| nrecs_ := O; r_dbc_ := fun _ => None; r_start_ := fun _ => 0; r_soft_ := fun _ => 0;
@@ -526,15 +527,26 @@ Definition finalize (dbc : option nat) (r : option nat) (gcf : option nat) (twr 
           match y with
           | Ok _ => (Ok tt, s1)
           | Raise e =>
-              (* except BaseException as e: connection_record.invalidate(e); re-raise non-Exception *)
-              let s1 := if is_gc && negb (is_exception e) then set_taint_gc s1 true else s1 in
+              (* except BaseException as e: connection_record.invalidate(e); a non-Exception error is
+                 re-raised after the (invalidated) record has been checked in *)
+              let s1 := if negb is_gc && negb (is_exception e) then set_taint_reset s1 true else s1 in
               let '(z, s2) := match r with
                               | Some r0 => rec_invalidate r0 false s1
                               | None => (Ok tt, s1)
                               end in
               match z with
               | Raise e2 => (Raise e2, s2)
-              | Ok _ => if is_exception e then (Ok tt, s2) else (Raise e, s2)
+              | Ok _ =>
+                  if is_exception e then (Ok tt, s2)
+                  else
+                    match r with
+                    | Some r0 =>
+                        match r_fairy s2 r0 with
+                        | Some _ => reraise_after e (rec_checkin r0 true s2)
+                        | None => (Raise e, s2)
+                        end
+                    | None => (Raise e, s2)
+                    end
               end
           end
       end in
